@@ -5,7 +5,7 @@
     recomputed from what the harness observes of one litestream Checkpoint call
     and compared with the branch the implementation took. *)
 From Coq Require Import List NArith ZArith Bool.
-From LS Require Import Base.Sx Db.Image Db.Machine.
+From LS Require Import Base.Sx Base.Bytes Wal.Reader Db.Image Db.Machine Db.Verify.
 Import ListNotations.
 Open Scope N_scope.
 
@@ -137,3 +137,64 @@ Lemma machine_fail_is_step (data : Type) (lock : N) (midcheck postcopy recheck f
   in_call (pc data s) = true -> opened data s = true ->
   step data lock midcheck postcopy recheck freshrule reachrule s (LsFail data c) = Some (fail_st data s c).
 Proof. intros A B. cbn. rewrite A, B. reflexivity. Qed.
+
+(** * [Machine.verify] against the byte-level model of verifyWithExecutor on observed states
+
+    The byte-level model [Db.Verify.verify] is compared with db.go on every observed sync step
+    (entry db_sync_step).  The theorems of Db/Machine*.v are about [Machine.verify], its
+    abstraction (salts -> generations, byte offsets -> frame counts, lastPageMatch -> its salt
+    comparison).  This entry evaluates BOTH on the same observed input — the machine's state is
+    abstracted from the bytes inside Coq — and answers 1 iff they take the same decision
+    (snapshot / incremental from the cursor / incremental from the header of a new generation,
+    with the same clearing of syncedToWALEnd).  Input as db_sync_step; cases whose WAL is not a
+    header plus whole frames, or on which the byte-level model reports an error, answer 1. *)
+Definition gen_id (ids : list (N * N)) (p : N * N) : nat :=
+  (fix go (l : list (N * N)) (i : nat) : nat :=
+     match l with
+     | [] => i
+     | q :: tl => if pair_eqb p q then i else go tl (S i)
+     end) ids O.
+
+Definition slot_salts (ps : N) (w : list N) : list (N * N) :=
+  map (fun f => (be32 f 8, be32 f 12)) (wal_frames ps w).
+
+Definition vans_code (v : vans) : N :=
+  match v with VSnap => 0 | VIncrAt => 1 | VIncrHdr false => 2 | VIncrHdr true => 3 end.
+
+Definition machine_verify_agrees (x : sx) : sx :=
+  let ps := asN (nthx 0 x) in
+  let pos := asN (nthx 3 x) in
+  let lastx := nthx 4 x in
+  let l_off := asN (nthx 0 lastx) in
+  let l_size := asN (nthx 1 lastx) in
+  let ls := (asN (nthx 2 lastx), asN (nthx 3 lastx)) in
+  let last := mkL0 l_off l_size (fst ls) (snd ls) (asN (nthx 4 lastx))
+                   (map (fun p => (asN (nthx 0 p), asN (nthx 1 p))) (asL (nthx 5 lastx))) in
+  let toEnd := asB (nthx 5 x) in
+  let present := asB (nthx 6 x) in
+  let w := asNs (nthx 7 x) in
+  let fdig := if asB (nthx 8 x) then Some (asN (nthx 9 x)) else None in
+  let reachedN := asN (nthx 10 x) in
+  let fsz := frame_size ps in
+  let wsz := N.of_nat (length w) in
+  if negb present || N.ltb wsz 32 || negb (N.eqb ((wsz - 32) mod fsz) 0) then sxN 1 else
+  match verify ps pos last toEnd reachedN (Some w) fdig with
+  | VErr => sxN 1
+  | VOk info =>
+      let cursor := l_off + l_size in
+      let byte_code : N :=
+        if N.eqb pos 0 then 0
+        else if i_snap info then 0
+        else if N.eqb (i_offset info) cursor && pair_eqb (i_s1 info, i_s2 info) ls then 1
+        else if i_clear info then 3 else 2 in
+      let hs := (be32 w 16, be32 w 20) in
+      let slots := slot_salts ps w in
+      let ids := hs :: ls :: slots in
+      let phys := map (fun p => (gen_id ids p, mkF N 1 1 0)) slots in
+      let s : state N :=
+        mkSt N (fun _ => 0) 1 (gen_id ids hs) [] 0 1 phys (Some 1%nat) false true
+             (if N.eqb pos 0 then [] else [mkLtx N (fun _ => None) 1])
+             (gen_id ids ls) (N.to_nat ((cursor - 32) / fsz)) 0
+             (mkSess toEnd 0 false None (negb (N.eqb reachedN 0))) Idle Lost [] [] in
+      sxB (N.eqb (vans_code (Machine.verify N true true s)) byte_code)
+  end.
